@@ -606,6 +606,12 @@ func (w *world) blOp() {
 		if rng.Intn(8) == 0 {
 			prm.TokenAddress = "0x" + strings.ToUpper(p.addr[2:])
 		}
+		switch rng.Intn(30) {
+		case 0: // a network that is not configured
+			prm.ChainId, variant = brChainId+1, "unknown-network"
+		case 1: // a token address without a pair
+			prm.TokenAddress, variant = "0x00000000000000000000000000000000000000aa", "unknown-token"
+		}
 		sig := tssSign(unwrapMessageOf(&definition.UnwrapTokenRequest{NetworkClass: prm.NetworkClass, ChainId: prm.ChainId, TransactionHash: tx, LogIndex: log,
 			ToAddress: to, TokenAddress: prm.TokenAddress, Amount: amt}))
 		if variant == "genuine" {
